@@ -24,6 +24,11 @@ pub enum Step {
     Reopen(usize),
     /// raw SQL with an expectation decided by the generator (true = must succeed)
     Raw(String, bool),
+    /// ROLLBACK with no read by the monitor afterwards (a read is a committing transaction and would change what
+    /// the next VACUUM considers recent)
+    RollbackQuiet(usize),
+    /// BEGIN of a session during which the monitor issues no statement of its own (no fresh-reader checks)
+    BeginQuiet(usize),
     /// a session that writes nothing and stays open while the following steps run
     BeginIdle(usize),
     /// the idle session re-reads (its snapshot must be the one it began with) and ends (true = commit, false = rollback)
@@ -46,6 +51,8 @@ impl Step {
             Step::Vacuum => "@vacuum".into(),
             Step::Reopen(c) => format!("@reopen cfg{}", c),
             Step::Raw(s, _) => s.clone(),
+            Step::RollbackQuiet(i) => format!("@s{} rollback (no read after)", i),
+            Step::BeginQuiet(i) => format!("@s{} begin (no monitor reads until it ends)", i),
             Step::BeginIdle(i) => format!("@s{} begin (idle)", i),
             Step::EndIdle(i, c) => format!("@s{} {} (idle)", i, if *c { "commit" } else { "rollback" }),
             Step::Burn(n) => format!("@burn {} SELECT", n),
@@ -120,11 +127,12 @@ pub struct Exec {
     /// C12: an explicit out-of-memory error of a too-small cache ends the run without being a divergence
     pub permit_oom: bool,
     pub stopped_oom: bool,
+    pub quiet: std::collections::HashSet<usize>,
 }
 
 impl Exec {
     pub fn new(check: &'static str, cfg: axmosdb::DBConfig) -> Exec {
-        Exec { db: Dbx::create(cfg), committed: State::default(), sessions: Default::default(), transcript: vec![], atoms: BTreeSet::new(), check, script: vec![], diverged: false, permit_oom: false, stopped_oom: false }
+        Exec { db: Dbx::create(cfg), committed: State::default(), sessions: Default::default(), transcript: vec![], atoms: BTreeSet::new(), check, script: vec![], diverged: false, permit_oom: false, stopped_oom: false, quiet: Default::default() }
     }
 
     fn fail(&mut self, oracle: &str, kind: &str, detail: &str) {
@@ -235,6 +243,9 @@ impl Exec {
                 if matches!(m, MOut::Err(_)) {
                     self.atoms.insert("hist.stmt_failed_in_txn".into());
                 }
+                if self.quiet.contains(i) {
+                    return;
+                }
                 self.check_session_view(*i);
                 if self.diverged {
                     return;
@@ -340,6 +351,22 @@ impl Exec {
                 self.transcript.push(canon(&o));
                 if o.is_ok() != *must_succeed {
                     self.fail("raw", if *must_succeed { "unexpected-error" } else { "unexpected-success" }, &format!("{} => {}", sql, o.show()));
+                }
+            }
+            Step::BeginQuiet(i) => match self.db.session() {
+                Ok(sx) => {
+                    self.quiet.insert(*i);
+                    self.sessions.insert(*i, (sx, self.committed.clone()));
+                    self.transcript.push("begin".into());
+                }
+                Err(e) => self.fail("session", "begin-failed", &e),
+            },
+            Step::RollbackQuiet(i) => {
+                let Some((sx, _)) = self.sessions.remove(i) else { return };
+                self.atoms.insert("hist.rollback".into());
+                match sx.rollback() {
+                    Ok(()) => self.transcript.push("rollback ok".into()),
+                    Err(e) => self.fail("rollback", &format!("unexpected-error({})", err_class(&e)), &e),
                 }
             }
             Step::BeginIdle(i) => match self.db.session() {
@@ -612,6 +639,18 @@ pub fn gen_history(r: &mut Rng, p: &Profile) -> (Table, Vec<Step>) {
         if let Some((s, mut ov, left, end)) = open.take() {
             if left == 0 {
                 match end {
+                    3 => {
+                        // VACUUM right after the ROLLBACK, with no transaction in between
+                        steps.push(Step::RollbackQuiet(s));
+                        if p.vacuum {
+                            steps.push(Step::Vacuum);
+                        } else if p.reopen && hg.r.chance(1, 2) {
+                            let c = hg.r.usize(p.configs.len());
+                            steps.push(Step::Reopen(c));
+                        } else if p.flush && hg.r.chance(1, 2) {
+                            steps.push(Step::Flush);
+                        }
+                    }
                     1 => steps.push(Step::Rollback(s)),
                     2 => steps.push(Step::DropSess(s)),
                     _ => {
@@ -644,9 +683,14 @@ pub fn gen_history(r: &mut Rng, p: &Profile) -> (Table, Vec<Step>) {
         let k = hg.r.below(20);
         if p.sessions && k < 6 {
             sid += 1;
-            steps.push(Step::Begin(sid));
             let k = hg.r.below(10);
-            let end = if p.rollback && k < 4 { 1 } else if p.rollback && k < 5 { 2 } else { 0 };
+            let mut end = if p.rollback && k < 4 { 1 } else if p.rollback && k < 5 { 2 } else { 0 };
+            if end == 1 && ((p.vacuum && hg.r.chance(1, 2)) || (!p.vacuum && hg.r.chance(1, 4))) {
+                end = 3; // quiet session: rolled back and vacuumed with no other transaction in between
+                steps.push(Step::BeginQuiet(sid));
+            } else {
+                steps.push(Step::Begin(sid));
+            }
             open = Some((sid, model.clone(), hg.r.range(1, 3) as usize, end));
         } else if p.batch && k < 8 {
             let n = hg.r.range(2, 3);
@@ -744,7 +788,7 @@ pub fn history_hash(steps: &[Step]) -> u64 {
 }
 
 pub fn nontrivial(steps: &[Step]) -> bool {
-    steps.iter().any(|s| matches!(s, Step::Rollback(_) | Step::DropSess(_) | Step::Commit(_) | Step::Batch(_) | Step::Vacuum | Step::Reopen(_) | Step::Flush))
+    steps.iter().any(|s| matches!(s, Step::Rollback(_) | Step::RollbackQuiet(_) | Step::DropSess(_) | Step::Commit(_) | Step::Batch(_) | Step::Vacuum | Step::Reopen(_) | Step::Flush))
 }
 
 pub fn run_profile(p: &Profile, seed: u64, shard: u64, n_hist: usize) {
@@ -769,6 +813,8 @@ pub fn run_profile(p: &Profile, seed: u64, shard: u64, n_hist: usize) {
                 Step::Vacuum => "vacuum",
                 Step::Reopen(_) => "reopen",
                 Step::Raw(..) => "raw",
+                Step::RollbackQuiet(_) => "rollback_then_vacuum",
+                Step::BeginQuiet(_) => "begin",
                 Step::BeginIdle(_) => "begin_idle",
                 Step::EndIdle(..) => "end_idle",
                 Step::Burn(_) => "burn",
